@@ -21,11 +21,14 @@ Print Assumptions C11_rr7_sound.
 (* RationalReconstruction(a,b,x,m,a_bound,b_bound)  (as repaired by /repo commit 68125ac) *)
 Theorem C11_rr6_sound : RR6_sound.                             Proof. exact rr6_sound. Qed.
 Print Assumptions C11_rr6_sound.
-(* Rational(f,m,k,recurs) / QField<Rational>::ratrecon (no success report): for f <= m the stored pair always has num == den*f, den > 0 *)
+(* Rational(f,m,k,recurs) / QField<Rational>::ratrecon (no success report): for EVERY f, m >= 2, 1 <= k <= m, any flags / recurs
+   (widening loop beyond m included) the stored pair has num == den*f (mod m) and den > 0 *)
 Theorem C11_ratrecon_pair_always_congruent : Ratrecon_always.  Proof. exact ratrecon_always. Qed.
 Print Assumptions C11_ratrecon_pair_always_congruent.
 Theorem C11_rational_ctor_congruent : RatCtor_always.         Proof. exact ratctor_always. Qed.
 Print Assumptions C11_rational_ctor_congruent.
+Theorem C11_qfield_ratrecon_congruent : QField_always.        Proof. exact qfield_always. Qed.
+Print Assumptions C11_qfield_ratrecon_congruent.
 (* completeness: any coprime a/b, b > 0, a == b f (mod m), |a| m + b k^2 <= k m, is returned exactly *)
 Theorem C11_ratrecon_complete : Ratrecon_complete.             Proof. exact ratrecon_complete. Qed.
 Print Assumptions C11_ratrecon_complete.
